@@ -275,6 +275,10 @@ def corpus(chk, build, workdir, stats):
         p, route, q, r, obs = info[int(m.group(1))]
         f = first[p["id"]]
         key = {"kind": "corpus-disagreement", "prog": p["id"], "route": route, "opts": ["-Q%d" % q], "built": obs[0]}
+        if obs[0] in ("javac", "compile", "timeout"):
+            # a build failure is reported in the vocabulary of the generated family (same known-finding keys)
+            cl = progcheck.classify(r, {"status": "done", "out": ""})
+            key = {"kind": cl[0], "sig": cl[1], "shapes": [], "route": route, "opts": ["-Q%d" % q], "prog": p["id"]}
         chk.violation("corpus program %s: %s -Q%d differs from %s -Q%d" % (p["id"], route, q, f[0], f[1]),
                       {"program_id": p["id"], "route": route, "level": q, "observed": obs, "reference": f[3], "reference_cfg": "%s-Q%d" % (f[0], f[1]),
                        "got_err": r["err"][:2000], "source": p["source_text"]}, key=key)
